@@ -13,7 +13,7 @@ PROPERTY = "C04"
 LEVEL = "exploration"
 RULE = (
     "case = (input, dialect, templater, limits, entry point); inputs: hostile strings x 28 dialects, deep bracket nests (40..3000) and long token lists against max_parse_depth in {default, 5, 60} "
-    "and max_parse_nodes in {default, 50}, seeded mutants of fixtures, generated hostile Jinja / python-format / placeholder templates incl. invalid ones; entry points: Linter.parse_string, "
+    "and max_parse_nodes in {default, 50}, seeded mutants of fixtures, generated hostile Jinja / python-format / placeholder templates incl. invalid ones, Jinja templates whose unreached (guarded) branch raises ValueError/ZeroDivisionError/TypeError when forced; entry points: Linter.parse_string, "
     "Linter.lint_string(fix=False/True), Linter.lint_paths on a real file (listening on the sqlfluff.linter logger for the runner's 'Unable to lint' funnel), sqlfluff.lint/fix/parse API, and the real "
     "CLI on stdin (exit status must be 0/1 with no traceback); oracle: no exception other than the documented APIParsingError of api.parse; distinct = content hash + entry point; non-trivial = input non-empty and the entry point returned a result object"
 )
@@ -58,6 +58,7 @@ def nest_source(case):
 def universe():
     u = common.hs_cases() + common.mx_cases(2, 5000, start=50) + nest_cases()
     u += common.jj_cases(2500, "hostile", FOUR) + common.py_cases(1200) + common.ph_cases(600)
+    u += common.jj_cases(720, "guarded", ("ansi",))
     out = []
     for i, c in enumerate(u):
         c = dict(c)
@@ -104,6 +105,8 @@ def run_case(case):
     core = case.get("core") or None
     classes = set()
     feats = set(r.get("features") or [])
+    if "reached_raiser" in feats:
+        classes.add("jinja.reached_raiser")
     if "positional" in feats:
         classes.add("py.positional_field")
     if {"dotted_spaced_spec", "spaced_spec"} & feats:
